@@ -141,6 +141,21 @@ func SignInPlace(el *etree.Element, s SignSpec) *etree.Element {
 	if c14n == "" {
 		c14n = C14NExc
 	}
+	var nest *etree.Element
+	if s.Nested != "" {
+		nest = &etree.Element{Space: "samlp", Tag: s.Nested}
+		nest.CreateAttr("xmlns:samlp", NSP)
+		idx := 0
+		for i, ch := range el.Child {
+			if ce, ok := ch.(*etree.Element); ok {
+				if ce.Tag == "Issuer" {
+					idx = i + 1
+				}
+				break
+			}
+		}
+		el.InsertChildAt(idx, nest)
+	}
 	digest := hashBytes(digestHash[digAlg], CanonicalOf(el, c14n, s.PrefixList))
 
 	sig := &etree.Element{Space: "ds", Tag: "Signature"}
@@ -185,7 +200,11 @@ func SignInPlace(el *etree.Element, s SignSpec) *etree.Element {
 			break
 		}
 	}
-	el.InsertChildAt(idx, sig)
+	if nest != nil {
+		nest.AddChild(sig)
+	} else {
+		el.InsertChildAt(idx, sig)
+	}
 
 	// SignedInfo is always canonicalised without a prefix list (that is what the verifier does)
 	siBytes := CanonicalOf(si, c14n, "")
